@@ -123,9 +123,12 @@ def cargo_env():
     return env
 
 
-def run_verus(path, rlimit, nthreads=4):
+def run_verus(path, rlimit, nthreads=4, seed=None):
     cmd = [VERUS, path, '--output-json', '--time', '--triggers-mode', 'silent', '--multiple-errors', '8',
-           '--rlimit', str(rlimit), '--num-threads', str(nthreads), '--', '--error-format=json']
+           '--rlimit', str(rlimit), '--num-threads', str(nthreads)]
+    if seed is not None:
+        cmd += ['--smt-option', 'smt.random_seed=%d' % seed, '--smt-option', 'sat.random_seed=%d' % seed]
+    cmd += ['--', '--error-format=json']
     t0 = time.time()
     p = subprocess.run(cmd, capture_output=True, text=True, cwd=os.path.dirname(path), env=cargo_env())
     wall = time.time() - t0
@@ -195,6 +198,21 @@ def process_unit(unit, outdir, rlimit):
         f2 = ex.submit(run_verus, cpath, rlimit)
         r = f1.result()
         rc = f2.result()
+    # A proof found under ANY solver seed is a proof (soundness does not depend on the seed); a failure that does not reproduce under
+    # other seeds is solver instability, not a violation. So a run with failed obligations is repeated under up to 3 other seeds and
+    # the first run in which every obligation is discharged counts; only an obligation that fails under every seed is reported.
+    res['seed_retries'] = []
+    def _has_verif_failure(rr):
+        return any(classify_diag(d) in ('verif', 'undecided') for d in rr['diags'])
+    if r['json'] and _has_verif_failure(r) and not any(classify_diag(d) == 'tool' for d in r['diags']):
+        for sd in (1, 2, 3):
+            r2 = run_verus(path, rlimit, seed=sd)
+            ok2 = bool(r2['json']) and not any(classify_diag(d) for d in r2['diags'])
+            res['seed_retries'].append({'seed': sd, 'all_discharged': ok2})
+            if ok2:
+                res['unstable_under_default_seed'] = True
+                r = r2
+                break
     res['verus_cmd'] = r['cmd']
     res['verus_version'] = (r['json'] or {}).get('verus', {})
     linemap = report['linemap']
